@@ -340,8 +340,11 @@ def effSilence (s : St) (o : NatOr) : Int := if analysisRuns s then o.isSilence 
 def decChan (s : St) (fuzz : Bool) (o : NatOr) (frameSize : Int) : St × List Int :=
   let cd := chanDecide s fuzz (voiceEst s)
               (computeEquivRate s.bitrateBps s.channels (s.fs / frameSize) s.useVbr 0 s.complexity s.lossPerc) o.rands
+  -- :1388-1399: when the DTX detector in charge changes, neither run counter carries over
   ({ s with streamChannels := cd.1,
-            silkUseDtx := b2i (s.useDtx ≠ 0 ∧ ¬ (effValid s o ≠ 0 ∨ effSilence s o ≠ 0)) }, cd.2)
+            silkUseDtx := b2i (s.useDtx ≠ 0 ∧ ¬ (effValid s o ≠ 0 ∨ effSilence s o ≠ 0)),
+            nbNoActivity := (if b2i (s.useDtx ≠ 0 ∧ ¬ (effValid s o ≠ 0 ∨ effSilence s o ≠ 0)) ≠ s.silkUseDtx then 0
+                             else s.nbNoActivity) }, cd.2)
 
 /-- Result of the mode transition logic :1462-1479. -/
 structure Trans where
